@@ -15,18 +15,18 @@ def add(pid, engine, category, technique, text, note, ref):
 
 add("C19", 'xenum', 'exploration',
     'bounded exhaustive enumeration of values, byte strings and declared lengths on the real quicwire package against an RFC 9000 arithmetic reference',
-    'Every value below 2^22 (quick) / 2^30 plus the first 2^26 values of the 8-byte class (thorough), every 2^k-boundary value up to 2^62-1, every 8-byte form over a 5-byte alphabet, every byte string of length <= 3 and every first byte x length 0..9 as decoder input (with different bytes behind the slice), every length class x declared-length boundary (up to 2^62-1) x remaining length 0..70 for the byte-string consumers: encoder, size function and decoder must agree with the reference on all of them; destinations inside guarded buffers with spare capacity 0..300: only the appended bytes may change, also when the string to append lies inside that spare capacity. The whole check is also built for GOARCH=386 and run by the 64-bit program (declared lengths 2^32*m+k meet a 32-bit int); its findings are reported with the prefix [GOARCH=386].',
+    'Every value below 2^22 (quick) / 2^30 plus the first 2^26 values of the 8-byte class (thorough), every 2^k-boundary value up to 2^62-1, every 8-byte form over a 5-byte alphabet, every byte string of length <= 3 and every first byte x length 0..9 as decoder input (with different bytes behind the slice), every length class x declared-length boundary (up to 2^62-1) x remaining length 0..70 for the byte-string consumers: encoder, size function and decoder must agree with the reference on all of them; destinations inside guarded buffers with spare capacity 0..300: only the appended bytes may change, also when the string to append lies inside that spare capacity; results handed out earlier are not served again after the caller changed them. The whole check is also built for GOARCH=386 and run by the 64-bit program (declared lengths 2^32*m+k meet a 32-bit int); its findings are reported with the prefix [GOARCH=386].',
     'Trusted: the 40-line arithmetic reference in checks/c19; values in [2^30+2^26, 2^62) are covered only through the boundary alphabet.',
     'DESIGN.md 4 C19')
 
 add("C01", 'xenum+seqx', 'exploration',
-    'bounded exhaustive enumeration of honest issuance flows (type x key x challenge length x nonce x entropy x batch x origin x blind alphabets, keys with truncated id 00/ff found by search, special origin names) on the real code with every message crossing the wire as bytes, plus all sequences (length 2..3/4) of issuances that share the issuer-side request object or are in flight together',
+    'bounded exhaustive enumeration of honest issuance flows (type x key x challenge length x nonce x entropy x batch x origin x blind alphabets, keys with truncated id 00/ff found by search, special origin names, the empty challenge as nil and as empty slice) on the real code with every message crossing the wire as bytes, plus all sequences (length 2..3/4) of issuances that share the issuer-side request object or are in flight together',
     "Every tuple of the per-type alphabets is run client -> bytes -> decoder -> issuer (-> attester for type 3) -> bytes -> client; the token must have the exact layout and verify under an independent verifier (crypto/rsa PSS; RFC 9497 evaluation recomposed from group primitives) and under the issuer's own Verify. Callers reuse their argument buffers after every call; issuers reuse their decoder object; several requests are evaluated before the first is finalized.",
     'Keys, nonces, challenges and blinds are fixed alphabets of representatives (boundary scalars 1, 2, N-1, leading-zero, DRBG); entropy is a SHA-256 counter DRBG installed in crypto/rand.Reader.',
     'DESIGN.md 4 C01, 9.2b')
 
 add("C03", 'xenum+guard', 'exploration',
-    'bounded exhaustive enumeration of byte strings (all strings over a 12-byte alphabet up to length 4/5; every truncation, extension, length-field value up to 2^62-1 in every encoding, byte substitution and bit flip of valid messages; boundary (r,s) pairs as raw, DER and inside requests; correctly encrypted and signed requests with malformed inner plaintexts and with unusual padded origin fields; well-formed SubjectPublicKeyInfo of foreign key types; separator characters of textual parts singly and doubled; length-prefixed parts resized consistently) against 36 byte-consuming entry points, each call guarded for panic, allocation and termination in single-threaded worker subprocesses under an address-space limit',
+    'bounded exhaustive enumeration of byte strings (all strings over a 12-byte alphabet up to length 4/5; every truncation, extension, length-field value up to 2^62-1 in every encoding, byte substitution and bit flip of valid messages; boundary (r,s) pairs as raw, DER and inside requests; correctly encrypted and signed requests with malformed inner plaintexts and with unusual padded origin fields; well-formed SubjectPublicKeyInfo of foreign key types and of RSA keys with degenerate integers; separator characters of textual parts singly and doubled; length-prefixed parts resized consistently) against 36 byte-consuming entry points, each call guarded for panic, allocation and termination in single-threaded worker subprocesses under an address-space limit',
     'For every target and every generated input: no panic (recovered and reported), no fatal runtime error (a worker killed by the runtime is attributed to the journaled case), TotalAlloc delta within 1 MiB + 64*len (steps) / 64 KiB + 16*len (decoders), and return within the watchdog. About 0.8M calls quick, several million thorough.',
     'Arbitrary bytes are represented by the structured generators, not by all 256^n strings; allocation is measured per call with runtime.MemStats in a GOMAXPROCS=1 worker; non-termination means no progress of a worker for 60 s in the sweep and no return within 120 s in the isolated confirmation.',
     'DESIGN.md 4 C03, 9.2')
@@ -41,7 +41,7 @@ add("C11", "xenum", "exploration",
     "Blind alphabets are boundary scalars plus DRBG values, for RSA also N-1 and respellings of one integer with leading zero bytes (same request required); a blind repeated within a batch; degenerate blinds (nil, empty, zero, order/modulus, wrong lengths and counts) must give the same outcome on every call; 'every run' is observed as repeated in-process issuance under different issuer randomness.",
     "DESIGN.md 4 C11")
 add("C18", "xenum", "exploration",
-    "bounded exhaustive enumeration of RSA public keys (every modulus bit length 16..2100/4104 x 4 value patterns x 9 exponents (incl. 0, 1, 2), plus 10 exponents whose DER ends in bytes that text handling trims), VOPRF keys and name keys against a hand-written DER/TLV reference and independent key-id computation",
+    "bounded exhaustive enumeration of RSA public keys (every modulus bit length 16..2100/4104 x 4 value patterns x 9 exponents (incl. 0, 1, 2), moduli up to 20000 bits, OPRF keys found by search whose serialised public key starts or ends with a zero byte, plus 10 exponents whose DER ends in bytes that text handling trims), VOPRF keys and name keys against a hand-written DER/TLV reference and independent key-id computation",
     "Both SPKI forms round-trip; the RSASSA-PSS form is byte-identical to hand-assembled DER with the literal RFC 9578 AlgorithmIdentifier; each issuer TokenKeyID equals SHA-256 of the independently serialised public key; requests of types 1/2/5 carry its last byte; type-3 requests carry SHA-256 of the name key bytes the issuer published (hand-built for every key id x KEM x KDF x AEAD), also when one client object uses several name keys in turn, and a decoded name key serialises back to those bytes.",
     "Trusted: the hand DER encoder and the 63-byte AlgorithmIdentifier literal in checks/c18; crypto/elliptic for the P-384 public key reference.",
     "DESIGN.md 4 C18")
@@ -72,13 +72,13 @@ add("C14", "xenum+envx", "exploration",
     "Arithmetic equivalence is reached only through the boundary alphabets (limb patterns, q*L+r bands): a wrong carry needing an operand outside them is invisible. This is the thinnest claim of the set.",
     "DESIGN.md 4 C14")
 add("C15", 'xenum+seqx', 'exploration',
-    'bounded exhaustive enumeration of seeds x blinds (incl. two found by search whose scalar / inverse scalar is below 2^240) x contexts (incl. lengths at SHA-512 block and padding boundaries in two variants) x messages, all ordered pairs of (blind, context), and every call-order sequence of length 2..3 over four contexts on ONE key object, blind and message buffer (arguments must stay unchanged, same context twice gives the same signature, plain Sign afterwards equals crypto/ed25519; then blind / context / key buffers changed in place with a failing call in between), against a math/big Edwards reference and three independent verifiers',
+    'bounded exhaustive enumeration of seeds x blinds (incl. two found by search whose scalar / inverse scalar is below 2^240) x contexts (incl. lengths at SHA-512 block and padding boundaries in two variants) x messages, all ordered pairs of (blind, context), and every call-order sequence of length 2..3 over four contexts on ONE key object, blind and message buffer (arguments must stay unchanged, same context twice gives the same signature, plain Sign afterwards equals crypto/ed25519; then blind / context / key buffers changed in place with a failing call in between; six fixed inputs signed again in a second process), against a math/big Edwards reference and three independent verifiers',
     'Blinded key == compress(r*A) with r = SHA-512(blind||00||ctx)[:32] mod L; signatures deterministic and independent of what was signed before, valid under the blinded key for crypto/ed25519, this package and a math/big RFC 8032 verifier, invalid under A; unblind inverts blind; blinding commutes; different blind or context gives a different key.',
     "Seeds, blinds, contexts are fixed alphabets; blinds are passed as exact-capacity slices (aliasing is C16's subject).",
     'DESIGN.md 4 C15, 9.2b')
 
 add("C06", 'xenum', 'exploration',
-    "bounded exhaustive enumeration of (request, blind, client key) inputs to the real attester: every single-bit flip of each of the six inputs of 2/4 honest triples (also with the request object's encoding cached, also with the client already registered), every signature length 0..97, 9x9 boundary (r,s) pairs, foreign signatures / blinds / keys, malformed key encodings, blinds that are not scalars (2^384-1, 64 bytes, 49 bytes), fields of non-wire lengths, the next request written over the accepted one in the caller's buffers, ciphertexts of 65535/65536/65537 bytes; reference verdict from crypto/ecdsa and an independent key-blinding reference; cache watched for writes",
+    "bounded exhaustive enumeration of (request, blind, client key) inputs to the real attester: every single-bit flip of each of the six inputs of 2/4 honest triples (also with the request object's encoding cached, also with the client already registered), every signature length 0..97, 9x9 boundary (r,s) pairs, foreign signatures / blinds / keys, malformed key encodings, blinds that are not scalars (2^384-1, 64 bytes, 49 bytes), fields of non-wire lengths, a foreign request key with contents signed by the client's blinded key, the next request written over the accepted one in the caller's buffers, ciphertexts of 65535/65536/65537 bytes; reference verdict from crypto/ecdsa and an independent key-blinding reference; cache watched for writes",
     'VerifyRequest returns nil exactly when the signature verifies under the request key over the hand-rebuilt message and the request key equals the client key multiplied by the reference blinding factor; every rejected request leaves the cache dump and Put count unchanged.',
     'Honest triples use boundary-scalar secrets and blinds; requests are handed over as structs as the API takes them.',
     'DESIGN.md 4 C06, 9.2b')
@@ -99,25 +99,25 @@ add("C05", 'xenum', 'exploration',
     "Two issuers of one type sharing a truncated key id: present iff one of them can sign, entry = stand-alone evaluation by the first that can, token judged only when that is the request's own key; the unknown-key-id letter uses the first byte of issuer A's id where that is free.",
     'DESIGN.md 4 C05, 9.2b')
 add("C07", "xenum", "exploration",
-    "bounded exhaustive enumeration of encoded requests to the real rate-limited issuer: every single-bit change, every truncation and 5 extensions of honest and of hand-crafted consistent requests, plus hand-crafted requests (go-hpke + crypto/ecdsa, independent of the client) for each rejecting class, incl. correctly framed and signed encrypted parts of 0..49 bytes, each also offered to an issuer that has just served an honest request (from the same caller buffer), plus accepted requests replayed under another request key or at another issuer",
+    "bounded exhaustive enumeration of encoded requests to the real rate-limited issuer: every single-bit change, every truncation and 5 extensions of honest and of hand-crafted consistent requests, plus hand-crafted requests (go-hpke + crypto/ecdsa, independent of the client) for each rejecting class, incl. correctly framed and signed encrypted parts of 0..49 bytes, each also offered to an issuer that has just served an honest request (from the same caller buffer), plus accepted requests replayed under another request key or at another issuer, associated data of other shapes, and unregistered names whose index key was looked up first",
     "Honest and consistent requests are accepted and finalize to valid tokens; each of ~4160 single-bit variants, 520 truncations, extensions, unregistered/similar origins, encryption to another name key (with and without the victim's id), associated data bound to another request key, signatures by another key / over other contents / missing / short are answered with an error and nil outputs.",
     "Expected verdicts of crafted requests follow from their construction; origin-name neighbours are a small list here (C20 enumerates them).",
     "DESIGN.md 4 C07")
 
 add("C02", 'xenum', 'exploration',
-    'bounded exhaustive enumeration of responses handed to the real client finalization of all four token types: every single-bit flip, truncation and 3 extensions of honest responses, the full (issuer key) x (state of request i) x (response for request j) matrices, caller-supplied salts of six boundary lengths for type 2, a second finalization on the same state after the caller scrubbed the tokens of the first and wrote the next response over the first in the same buffer (honest and corrupted responses), and for type 5 every sequence of element indices up to length n+1 both spliced into the honest response and evaluated afresh by the real key',
+    'bounded exhaustive enumeration of responses handed to the real client finalization of all four token types: every single-bit flip, truncation and 3 extensions of honest responses, the full (issuer key) x (state of request i) x (response for request j) matrices, caller-supplied salts of six boundary lengths for type 2, the honest response after a refused one on the same state, a second finalization on the same state after the caller scrubbed the tokens of the first and wrote the next response over the first in the same buffer (honest and corrupted responses), and for type 5 every sequence of element indices up to length n+1 both spliced into the honest response and evaluated afresh by the real key',
     "Finalization returns an error, or every returned token verifies under the pinned key with an independent verifier and carries the request's nonce, challenge digest and key id (the caller's argument buffers are overwritten after request creation); additionally the classes the statement lists (single-bit corruption, other issuer key, other request, dropped/duplicated/reordered elements) must be rejected outright.",
     'Requests, keys, nonces are fixed alphabets (2/4 requests x 2/3 keys per type); truncations and extensions are judged semantically only.',
     'DESIGN.md 4 C02, 9.2')
 
 add("C16", 'xenum+seqx', 'model_checking',
-    'exhaustive enumeration of argument placements (every byte-slice argument of 51 exported operations x spare capacity {0,1,16,64,512} x fill {00,AA,FF} in guarded buffers; every truncation of every peer message with its genuine tail lying behind it in the same buffer); the request, nonce and blind lists of the caller after later calls; every ecdsa operation taking *big.Int values or key objects (incl. blinding keys above the group order) on four curves with all reachable big integers compared before/after and the call repeated on the same objects; plus explicit-state enumeration of call histories (depth 3/4 over 10 operations) on one request state / issuer per token type with every hand-out captured and re-compared after every step',
+    'exhaustive enumeration of argument placements (every byte-slice argument of 51 exported operations x spare capacity {0,1,16,64,512} x fill {00,AA,FF} in guarded buffers; every truncation of every peer message with its genuine tail lying behind it in the same buffer); the request, nonce and blind lists of the caller after later calls and the response of an earlier EvaluateBatch across later batches; every ecdsa operation taking *big.Int values or key objects (incl. blinding keys above the group order) on four curves with all reachable big integers compared before/after and the call repeated on the same objects; plus explicit-state enumeration of call histories (depth 3/4 over 10 operations) on one request state / issuer per token type with every hand-out captured and re-compared after every step',
     'No operation changes its argument, the spare capacity behind it or the guard bytes, and its result is independent of capacity, fill and of what lies behind a truncated message; request fields, encodings, issuer responses and tokens handed out earlier keep their bytes across finalize (valid and invalid), evaluate, verify, marshal and re-use of the request object as a decoder; overwriting returned tokens does not disturb later calls.',
     'Operations are exercised with honest argument values; memory reachable only through unexported fields is observed indirectly (through later results).',
     'DESIGN.md 4 C16, 9.2b')
 
 add("C17", 'vsched', 'model_checking',
-    'stateless schedule exploration with a pre-emption bound (quick: bound 1, coarse granularity; thorough: fine granularity bound 1, then coarse granularity bound 2) of 31 scenarios (2-3 goroutines, one call each on one shared issuer, attester or key: freshly constructed, with a sequential history of rejected and served requests, or built over a key object its owner has already used) over pat-go sources instrumented with scheduling points, executed under a cooperative scheduler that is invisible to the Go race detector, so that every explored schedule is also checked for data races by happens-before analysis',
+    'stateless schedule exploration with a pre-emption bound (quick: bound 1, coarse granularity; thorough: fine granularity bound 1, then coarse granularity bound 2) of 33 scenarios (2-3 goroutines, one call each on one shared issuer, attester or key: freshly constructed, with a sequential history of rejected and served requests, built over a key object its owner has already used or assembled from raw numbers; one blinding key shared by all calls) over pat-go sources instrumented with scheduling points, executed under a cooperative scheduler that is invisible to the Go race detector, so that every explored schedule is also checked for data races by happens-before analysis',
     "For each of >10^4 distinct schedules per run: no race report on any memory (pat-go, circl, math/big, standard library), every call's result is one a sequential call could have produced (responses finalize to valid tokens, key ids / blinded keys / signatures equal the sequential ones, forged tokens rejected), no deadlock, no panic. Finds data races (lazy initialisation, in-place normalisation, memoisation, shared scratch buffers, counters, self-reordering lists) and race-free atomicity bugs (correctly locked check-then-act, CAS flag instead of sync.Once).",
     "Dependencies are atomic steps of a schedule (their races are still detected); coarse granularity = statements in tokens/ and in every function that mentions a package-level variable, function entries elsewhere; the race detector's bounded shadow history means a given race is reported in some schedules only.",
     'DESIGN.md 3.4, 4 C17, 9.2')
